@@ -57,6 +57,7 @@ func h1(w *World, r *Report) {
 	}
 	fieldIdx := map[string]int{"Height": 0, "Round": 1, "Step": 2}
 	// classify a condition: returns evaluator or error
+	cur := fn // the function being interpreted (CheckHRS, or a stage it tail-calls on the same state)
 	evalCond := func(c ssa.Value, a hrsAbs) (bool, error) {
 		neg := false
 		for {
@@ -78,14 +79,14 @@ func h1(w *World, r *Report) {
 				return "", false
 			}
 			fa, ok := u.X.(*ssa.FieldAddr)
-			if !ok || fa.X != fn.Params[0] {
+			if !ok || fa.X != cur.Params[0] {
 				return "", false
 			}
 			return fieldName(fa.X.Type(), fa.Field), true
 		}
 		paramIdx := func(v ssa.Value) (int, bool) {
 			p, ok := v.(*ssa.Parameter)
-			if !ok {
+			if !ok || cur != fn {
 				return 0, false
 			}
 			for i, q := range fn.Params {
@@ -151,6 +152,8 @@ func h1(w *World, r *Report) {
 		return res != neg, nil
 	}
 	run := func(a hrsAbs) (string, error) {
+		cur = fn
+		defer func() { cur = fn }()
 		b := fn.Blocks[0]
 		for steps := 0; steps < 200; steps++ {
 			switch t := lastInstr(b).(type) {
@@ -169,6 +172,19 @@ func h1(w *World, r *Report) {
 			case *ssa.Return:
 				if len(t.Results) != 2 {
 					return "", fmt.Errorf("unexpected result arity")
+				}
+				// `return lss.stage()`: a last stage on the same state, interpreted in turn
+				if e0, isE := t.Results[0].(*ssa.Extract); isE && e0.Index == 0 {
+					if e1, isE1 := t.Results[1].(*ssa.Extract); isE1 && e1.Index == 1 && e1.Tuple == e0.Tuple {
+						if call, isC := e0.Tuple.(*ssa.Call); isC {
+							g := call.Common().StaticCallee()
+							if g != nil && w.InModule(g) && g.Blocks != nil && len(g.Params) == 1 && len(call.Common().Args) == 1 && call.Common().Args[0] == ssa.Value(cur.Params[0]) && g != cur {
+								cur = g
+								b = g.Blocks[0]
+								continue
+							}
+						}
+					}
 				}
 				c, ok := t.Results[0].(*ssa.Const)
 				if !ok || c.Value == nil || c.Value.Kind() != constant.Bool {
